@@ -26,7 +26,7 @@ Fixpoint split_first (c : ascii) (s : string) : option (string * string) :=
   end.
 
 (* ---- configuration ---- *)
-Inductive lres := LOk (v : val) | LUnpick | LAttr | LOther.   (* loads: value / UnpicklingError class / AttributeError / any other *)
+Inductive lres := LOk (v : val) | LUnpick | LAttr | LOther.   (* loads: value / one of the pickler's "not a pickle" error classes (Pickler.UnpicklingError) / AttributeError / any other *)
 Inductive stored := SInt (z : Z) | SBytes (b : string) | SObj (v : val).
 Inductive dres := DVal (v : val) | DDefault | DUnsecure | DExc.
 Record cfg := { signer : option (string * string) }.           (* Some (digestmod, secret) = HashSigner *)
